@@ -369,6 +369,13 @@ func c06Run(c *mon.Ctx) {
 			}
 		}
 	}
+	// (7b) permission letters may repeat: the value is the set of the letters given, however many there are
+	for _, target := range []struct{ p, kind string }{{file, "path"}, {dir, "dir"}} {
+		for _, perms := range []string{"ww", "waw", "wawa", "rrrr", "xxxxx", "rwrwrw", "aaaaaaaa", "rwxr", "rwxarwxa", "wwwwa", "rxrxrxrxrx"} {
+			run(&rulegen.Spec{Watch: true, Path: target.p, PathKind: target.kind, Perms: perms, Keys: []string{"k"}})
+			c.Add("watch_cells_with_repeated_permission_letters", 1)
+		}
+	}
 	// (8) random rules (safe strings: both routes; hostile strings: struct route)
 	n := c.Pick(60_000, 20_000_000)
 	c.ForEach(n, func(w, i int) {
@@ -384,7 +391,7 @@ func c06Run(c *mon.Ctx) {
 func init() {
 	register(&mon.CheckSpec{
 		ID: "C06", Level: "exploration",
-		Rule: "cases = (1) grid: every list x action x every field name the library admits on that list x every operator the field class admits x V seeded boundary/random values (uids/gids at 0, 2^31-1, 2^31, 2^32-2, unset, -1; exit codes by number and errno name; msgtype by name and number; every perm subset; every filetype; arch names; a0-a3 decimal/hex/negative; string lengths 1-4096), (2) every inter-field comparison in both orders x {=,!=}, (3) every single syscall bit 0..2047, (3b) every (architecture with a syscall table, syscall name of some other table that this table lacks) pair - incl. b32 - must be refused, (3c) 21 numeric spellings (leading zeros, 0x / 0b / 0o prefixes, digit separators, exponent, sign, trailing blank) in 14 (list, numeric field) cells - a0, pid, inode, exit, msgtype, ... -: every field that accepts a spelling must encode the same number for it, (4) 0..64 filters (65 must be rejected), (5) key-length limit, (6) string boundary lengths, (7) watches on an existing file, an existing directory, a missing path, symbolic links to a directory / to a file / dangling, and a directory reached through a link, with every permission subset and 0-2 keys, (8) seeded random multi-filter rules with syscall sets by number and by name and 0-3 keys. Every request goes through Build from a Rule struct and (when its strings are shell-safe) through flags.Parse+Build from text; the bytes are decoded at the UAPI offsets by an independent little-endian decoder and compared with the request. distinct_nontrivial = distinct requests (by text).",
+		Rule: "cases = (1) grid: every list x action x every field name the library admits on that list x every operator the field class admits x V seeded boundary/random values (uids/gids at 0, 2^31-1, 2^31, 2^32-2, unset, -1; exit codes by number and errno name; msgtype by name and number; every perm subset; every filetype; arch names; a0-a3 decimal/hex/negative; string lengths 1-4096), (2) every inter-field comparison in both orders x {=,!=}, (3) every single syscall bit 0..2047, (3b) every (architecture with a syscall table, syscall name of some other table that this table lacks) pair - incl. b32 - must be refused, (3c) 21 numeric spellings (leading zeros, 0x / 0b / 0o prefixes, digit separators, exponent, sign, trailing blank) in 14 (list, numeric field) cells - a0, pid, inode, exit, msgtype, ... -: every field that accepts a spelling must encode the same number for it, (4) 0..64 filters (65 must be rejected), (5) key-length limit, (6) string boundary lengths, (7) watches on an existing file, an existing directory, a missing path, symbolic links to a directory / to a file / dangling, and a directory reached through a link, with every permission subset (and permission strings that repeat letters, 2-10 long) and 0-2 keys, (8) seeded random multi-filter rules with syscall sets by number and by name and 0-3 keys. Every request goes through Build from a Rule struct and (when its strings are shell-safe) through flags.Parse+Build from text; the bytes are decoded at the UAPI offsets by an independent little-endian decoder and compared with the request. distinct_nontrivial = distinct requests (by text).",
 		Assumptions: []string{
 			"expected codes come from internal/uapi (hand-written from linux/audit.h, self-tested against /usr/include/linux/audit.h in setup)",
 			"expected values are computed by the harness's own parsers; syscall names resolve through an x/sys/unix spot table where available, otherwise through the published table",
